@@ -112,12 +112,22 @@ PROGRAM_SETS = [
 
 # (C) end-to-end: specs run through the real search; every emitted OUTPUT STRING is judged by a string-level oracle that shares
 # nothing with the search (computed repetition count, `where` constraint)
+def _two_records_ok(o):
+    import re
+    m = re.fullmatch(r"([0-9]):([abc]*);([0-9]):([abc]*);\.", o)
+    return bool(m) and len(m.group(2)) == int(m.group(1)) and len(m.group(4)) == int(m.group(3)) and int(m.group(1)) + int(m.group(3)) == 7
+
+
 SEARCH_CASES = {
     "counted_items": ('<start> ::= <n> ":" <item>{int(<n>)} ";"\n<n> ::= "1" | "2" | "3" | "4" | "5"\n<item> ::= <c> <c>\n<c> ::= "a" | "b" | "c" | "d"\n'
                       'where str(<start>).count("a") >= 3\n',
                       lambda o: o.endswith(";") and ":" in o and len(o.split(":", 1)[1][:-1]) == 2 * int(o.split(":", 1)[0]) and o.count("a") >= 3),
     "fields_divide": ('def divides12(f):\n    return 12 % int(str(f)) == 0\n\n<start> ::= <f> "," <f> "," <f>\n<f> ::= "0" | "2" | "3" | "4" | "5"\nwhere divides12(<f>)\n',
                       lambda o: all(x != "0" and 12 % int(x) == 0 for x in o.split(","))),
+    # TWO records with a computed count each, tied by a constraint over both counts (crossover moves item runs between records)
+    "two_counted_records_sum": ('<start> ::= <rec>{2} "."\n<rec> ::= <n> ":" <item>{int(<n>)} ";"\n<n> ::= <dg>\n<dg> ::= "0" | "1" | "2" | "3" | "4" | "5" | "6" | "7" | "8" | "9"\n'
+                                '<item> ::= "a" | "b" | "c"\nwhere sum(int(str(x)) for x in *<n>) == 7\n',
+                                lambda o: _two_records_ok(o)),
     "len_prefixed": ('<start> ::= <len> <payload>\n<len> ::= r"[0-9]"\n<payload> ::= r"[a-z]"*\nwhere int(<len>) == len(str(<payload>))\nwhere str(<payload>).count("z") >= 1\n',
                      lambda o: o[0].isdigit() and int(o[0]) == len(o) - 1 and o.count("z") >= 1),
 }
